@@ -481,6 +481,8 @@ func (w *clWorld) prefixOf(a, b clHead) bool {
 //	       sigsrc/<log>@<size> lookup only: record+tree text from that snapshot, signature lines from the honest response
 //	       recsrc/<log>@<size> lookup only: record part from that snapshot, signed tree head from the honest response
 //	       hashsrc/<log>@<size> lookup only: response from that snapshot with the key hash bytes of the honest key spliced in
+//	       headext/<variant>  signed tree heads (lookup responses, /latest): the head is re-issued by the SAME signer over the
+//	                          same tree with additional text lines after the hash line (forward-compatible encoding, util_c13headext.go)
 type clFault struct {
 	class string
 	kind  string
@@ -684,6 +686,8 @@ func (f clFault) apply(e *clEnv, path string, honest []byte, herr error) ([]byte
 		return d, err, true
 	case "pdrop":
 		return clPdropApply(e, path, f.param, honest, herr)
+	case "headext":
+		return clHeadExtApply(e, f.param, honest, herr)
 	case "split":
 		// split-view server: a tile that lies on the right edge of (or beyond the common part inside) the given
 		// snapshot's tree is served from that snapshot, every other tile honestly
